@@ -53,6 +53,23 @@ Theorem C18_glob_nodup : forall ls pat, NoDup (ov_glob ls pat).
 Proof. exact glob_nodup. Qed.
 Print Assumptions C18_glob_nodup.
 
+(* 5. an overlay is a file system too: used as the upper layer of another overlay (its own answers on the
+   queried universe being its table), it behaves like the flattened stack - the same path is opened, the same
+   names are listed with the same entries and the listing fails in the same cases, the same matches are globbed *)
+Theorem C18_nested_open : forall a b ps ds pats p, mem p ps = true ->
+  ov_open (as_layer a ps ds pats :: b) p = ov_open (a ++ b) p.
+Proof. exact nested_open. Qed.
+Print Assumptions C18_nested_open.
+Theorem C18_nested_readdir : forall a b ps ds pats d n, mem d ds = true ->
+  served (as_layer a ps ds pats :: b) d n = served (a ++ b) d n /\
+  (ov_readdir (as_layer a ps ds pats :: b) d = None <-> ov_readdir (a ++ b) d = None).
+Proof. intros a b ps ds pats d n H. split; [now apply nested_readdir_served|now apply nested_readdir_error]. Qed.
+Print Assumptions C18_nested_readdir.
+Theorem C18_nested_glob : forall a b ps ds pats pat x, mem pat pats = true ->
+  (In x (ov_glob (as_layer a ps ds pats :: b) pat) <-> In x (ov_glob (a ++ b) pat)).
+Proof. exact nested_glob. Qed.
+Print Assumptions C18_nested_glob.
+
 (* non-vacuity: a two-layer stack where the upper layer shadows the lower one *)
 Example C18_example :
   let up := {| opens := [(bs "a", {| e_dir := false; e_data := bs "U" |})];
